@@ -39,6 +39,9 @@ func linkApply(op string, raw json.RawMessage) interface{} {
 	if err := json.Unmarshal(raw, &a); err != nil {
 		panic(err)
 	}
+	if op == "localburst" {
+		return burstApply(raw)
+	}
 	if op != "send" {
 		panic("verif: unknown op " + op)
 	}
@@ -148,6 +151,9 @@ func linkGen(v *verifRun) {
 		a.Sends = append(a.Sends, linkSend{To: to, Len: defaultMTU})
 		v.do(linkApply, "send", a)
 	}
+	for _, size := range []int{1200, 64, 9000} {
+		v.do(linkApply, "localburst", burstArgs{N: 150000, Size: size})
+	}
 }
 
 func TestVerifLink(t *testing.T) {
@@ -224,4 +230,69 @@ func pingGen(v *verifRun) {
 func TestVerifPing(t *testing.T) {
 	v := verifOpen(t, "ping")
 	v.run(pingApply, pingGen)
+}
+
+// ---- localburst: a sender that reuses its buffer as soon as WriteTo has returned (as net.PacketConn allows, and as
+// quic-go does), to a listener on the same node: every datagram must arrive as it was when it was sent
+
+type burstArgs struct {
+	N    int `json:"n"`
+	Size int `json:"size"`
+}
+
+func burstApply(raw json.RawMessage) interface{} {
+	var a burstArgs
+	if err := json.Unmarshal(raw, &a); err != nil {
+		panic(err)
+	}
+	s, cancel := verifQuietNode("me", 30)
+	defer cancel()
+	rx, err := s.ListenPacket("rx")
+	if err != nil {
+		return map[string]interface{}{"error": err.Error()}
+	}
+	tx, err := s.ListenPacket("")
+	if err != nil {
+		return map[string]interface{}{"error": err.Error()}
+	}
+	type res struct{ got, mixed int }
+	done := make(chan res, 1)
+	go func() {
+		buf := make([]byte, a.Size+16)
+		r := res{}
+		for r.got < a.N {
+			k, _, err := rx.ReadFrom(buf)
+			if err != nil {
+				break
+			}
+			r.got++
+			for j := 1; j < k; j++ {
+				if buf[j] != buf[0] {
+					r.mixed++
+					break
+				}
+			}
+		}
+		done <- r
+	}()
+	p := make([]byte, a.Size)
+	addr := s.NewAddr("me", "rx")
+	werr := ""
+	for i := 0; i < a.N && werr == ""; i++ {
+		b := byte(i)
+		for j := range p {
+			p[j] = b
+		}
+		if _, err := tx.WriteTo(p, addr); err != nil {
+			werr = err.Error()
+		}
+	}
+	select {
+	case r := <-done:
+		return map[string]interface{}{"received": r.got, "mixed": r.mixed, "werr": werr}
+	case <-time.After(60 * time.Second):
+		_ = rx.Close()
+		r := <-done
+		return map[string]interface{}{"received": r.got, "mixed": r.mixed, "werr": werr, "timeout": true}
+	}
 }
